@@ -30,3 +30,8 @@ chk("C05", "exploration", "runtime monitoring: metamorphic comparison of real ru
     "For each base journal, variants that only permute the directives and/or distribute them over an include tree are run under drawn GOMAXPROCS and schedule-perturbation seeds; the check verdict, every balance report byte for byte, and the printed journal modulo order inside (date, kind) groups must equal the base's.",
     "Samples permutations, tree shapes and schedules; diagnostics of rejected journals are not compared. Same-day double price declarations for one pair are excluded as in the statement.",
     "DESIGN.md §4 C05")
+
+chk("C09", "exploration", "runtime monitoring: round-trip of the real print command (print, check, print again, balance) plus an independent reader's directive census",
+    "print(J) of generated accepted journals must be accepted by check, be a fixpoint of print, yield byte-identical balance reports under several flag sets, and contain exactly the model's non-accrued directives as read by the harness's own journal reader.",
+    "The per-period split of accrued legs is C10's; balance comparisons use -a. Trusts the harness's journal reader (jr).",
+    "DESIGN.md §4 C09")
